@@ -117,7 +117,7 @@ def run(pid, tier, seed, *, select, extra_cases, rule, assumptions, level="model
         bounds = mc_bounds or ((4, 2, 1, 2) if q else (6, 3, 2, 3))
         # (M) full model check with 16 workers (no emission), then emission with 1 worker
         cfg = MC_CFG % (bounds + ("TRUE", "TRUE", "TRUE", "FALSE"))
-        r_mc = core.run_tlc("Solve", cfg, sc, workers=core.NCPU, tag="MC_Solve", coverage=False, timeout=3000)
+        r_mc = core.run_tlc("Solve", cfg, sc, workers=core.NCPU, tag="MC_Solve", coverage=True, timeout=3000)
         core.tlc_must_pass(r_mc, "MC_Solve")
         ebounds = (4, 2, 1, 2) if q else (5, 3, 2, 3)
         scen, r_em = emit_scenarios(sc, ebounds, True, True, True, "Emit_Solve")
